@@ -46,6 +46,7 @@ type Contract struct {
 	CrashInv     []*Clause
 	Ghost        []*GhostStmt // ghost assignments anchored after calls
 	TrustFrame   string          // non-empty: the modifies clause is assumed, not proved (reason)
+	RecvAssume   []*RecvAssume   // assumed channel invariants at receive sites
 	MergeAt      int             // loop-head join threshold for this function (directive mergeat; default 6)
 	Dead         map[string]bool // call sites (name#ordinal) acknowledged as unreachable in context (dead defensive code)
 	Witness      []*Clause
@@ -58,6 +59,12 @@ type Contract struct {
 	IsView       bool
 }
 
+// RecvAssume: `recvassume K: expr` assumes expr (over `recv`, the received value) at the K-th receive site.
+type RecvAssume struct {
+	Ord    int
+	Clause *Clause
+}
+
 // GhostStmt is a ghost assignment executed right after the Ord-th call (in source order) of
 // the function or method named Callee inside the contract's function:
 //   ghostcode after call connect 1: l.gin[ref(s2)] := true
@@ -65,6 +72,7 @@ type Contract struct {
 type GhostStmt struct {
 	Callee string
 	Ord    int
+	AtSend   bool // `ghostcode at send K: ...`: executed when the K-th send site (source order) sends
 	AtReturn bool // `ghostcode at return: ...`: executed at every normal return, before the postconditions
 	LHS    *Clause
 	RHS    *Clause
@@ -137,7 +145,7 @@ var keywords = map[string]bool{
 	"func": true, "requires": true, "ensures": true, "modifies": true, "trusted": true,
 	"inline": true, "maypanic": true, "panic_ensures": true, "loop": true, "pure": true,
 	"ghost": true, "axiom": true, "witness": true, "replay": true, "assert": true,
-	"nonilcheck": true, "props": true, "nilable": true, "crash_inv": true, "view": true, "opaque": true, "ghostcode": true, "dead": true, "depends": true, "mergeat": true, "trustframe": true,
+	"nonilcheck": true, "props": true, "nilable": true, "crash_inv": true, "view": true, "opaque": true, "ghostcode": true, "dead": true, "depends": true, "mergeat": true, "trustframe": true, "recvassume": true,
 }
 
 type directive struct {
@@ -269,6 +277,23 @@ func (s *Specs) ParseFile(path, pkgPath string) error {
 			}
 			s.Depends[f[0]] = append(s.Depends[f[0]], f[1:]...)
 			cur = nil
+		case "recvassume":
+			if cur == nil {
+				return fmt.Errorf("%s:%d: recvassume outside func", d.file, d.line)
+			}
+			colon := strings.Index(d.rest, ":")
+			if colon < 0 {
+				return fmt.Errorf("%s:%d: recvassume: want 'recvassume K: expr'", d.file, d.line)
+			}
+			k, err := strconv.Atoi(strings.TrimSpace(d.rest[:colon]))
+			if err != nil {
+				return fmt.Errorf("%s:%d: recvassume: %v", d.file, d.line, err)
+			}
+			c, err := mk(strings.TrimSpace(d.rest[colon+1:]))
+			if err != nil {
+				return err
+			}
+			cur.RecvAssume = append(cur.RecvAssume, &RecvAssume{Ord: k, Clause: c})
 		case "trustframe":
 			if cur == nil {
 				return fmt.Errorf("%s:%d: trustframe outside func", d.file, d.line)
@@ -308,9 +333,17 @@ func (s *Specs) ParseFile(path, pkgPath string) error {
 			}
 			hf := strings.Fields(d.rest[:colon])
 			atReturn := len(hf) == 2 && hf[0] == "at" && hf[1] == "return"
+			atSend := len(hf) == 3 && hf[0] == "at" && hf[1] == "send"
 			k := 0
 			if atReturn {
 				hf = []string{"at", "return", "", "0"}
+			} else if atSend {
+				var err error
+				k, err = strconv.Atoi(hf[2])
+				if err != nil {
+					return fmt.Errorf("%s:%d: ghostcode at send: %v", d.file, d.line, err)
+				}
+				hf = []string{"at", "send", "", hf[2]}
 			} else {
 				if len(hf) != 4 || hf[0] != "after" || hf[1] != "call" {
 					return fmt.Errorf("%s:%d: ghostcode: want 'after call NAME K: LHS := RHS' or 'at return: LHS := RHS'", d.file, d.line)
@@ -329,7 +362,7 @@ func (s *Specs) ParseFile(path, pkgPath string) error {
 			if err != nil {
 				return err
 			}
-			cur.Ghost = append(cur.Ghost, &GhostStmt{Callee: hf[2], Ord: k, AtReturn: atReturn, LHS: lhs, RHS: rhs, Src: d.rest})
+			cur.Ghost = append(cur.Ghost, &GhostStmt{Callee: hf[2], Ord: k, AtReturn: atReturn, AtSend: atSend, LHS: lhs, RHS: rhs, Src: d.rest})
 		case "modifies":
 			if cur == nil {
 				return fmt.Errorf("%s:%d: modifies outside func", d.file, d.line)
